@@ -269,7 +269,12 @@ void sh_maybe()
       probe p;
       OD const r = fcppt::optional::make_if(b != 0, fn0<D>(d, p, mk_d));
       CK(code(r) == (b ? 1 + d : 0), "optional::make_if:result", "got %s", show_opt(code(r)).c_str());
-      CK(p.is(b, d), "optional::make_if:calls", "%s", p.show().c_str());
+      // selected branch: "_function() is returned as an optional" -- one evaluation; that the function is left alone when
+      // _is_set is false is not promised by the documentation -> information only
+      if (b)
+        CK(p.is(1, d), "optional::make_if:calls", "%s", p.show().c_str());
+      else
+        INFO_ONLY(p.calls == 0, "optional::make_if:function_called_although_not_set");
     }
 }
 
@@ -829,7 +834,12 @@ void sh_misc()
         OD const r = call_cat(cat, o, [&](auto &&x) { return fcppt::optional::alternative(std::forward<decltype(x)>(x), second); });
         int const want = a != 0 ? a : b;
         CK(code(r) == want, "optional::alternative:result", "got %s want %s", show_opt(code(r)).c_str(), show_opt(want).c_str());
-        CK(p.is(a == 0, b), "optional::alternative:calls", "%s", p.show().c_str());
+        // "otherwise the result of _optional2 is returned": one evaluation when the first is nothing; laziness when the first
+        // is set is not promised by the documentation -> information only
+        if (a == 0)
+          CK(p.is(1, b), "optional::alternative:calls", "%s", p.show().c_str());
+        else
+          INFO_ONLY(p.calls == 0, "optional::alternative:second_called_although_first_set");
         if (cat < 2)
           CK(code(o) == a, "optional::alternative:source_modified", "lvalue source is now %s", show_opt(code(o)).c_str());
       }
